@@ -13,8 +13,8 @@ import (
 
 	"github.com/thushan/olla/internal/adapter/metrics"
 	"github.com/thushan/olla/internal/adapter/registry/profile"
-	"github.com/thushan/olla/internal/adapter/unifier"
 	"github.com/thushan/olla/internal/adapter/translator/anthropic"
+	"github.com/thushan/olla/internal/adapter/unifier"
 	"github.com/thushan/olla/internal/config"
 	"github.com/thushan/olla/internal/core/domain"
 	"github.com/thushan/olla/verifharness/world"
